@@ -41,6 +41,8 @@ def ctx_effects(P, b):
 
 # ---- automaton extraction ---------------------------------------------------------------------
 def norm(s):
+    if not isinstance(s, str):
+        return "?%r" % (s,)   # a plain-boolean fact has no right-hand side
     s = re.sub(r"\(self\.inner_state as \w+\)", "ST", s)
     s = s.replace("some!(Iterator::next(self.stmt_iter))", "STMT")
     s = re.sub(r"(LoopState|WhileState)::take\(([^()]*)\)", r"\2", s)   # take() moves the payload
